@@ -194,9 +194,15 @@ def _apply_section(sec, head, it, data, s0, e0, what, edits, drop, tags_box, ret
         lp = it["loops"][k]
         pat = data[lp["pat"][0]:lp["pat"][1]].decode()
         ex = data[lp["expr"][0]:lp["expr"][1]].decode()
-        hdr = f"{{ let mut __it{k} = core::iter::IntoIterator::into_iter({ex}); while let Some({pat}) = __it{k}.next() "
-        edits.append(Edit(lp["span"][0], lp["body_start"], hdr, "X9:desugar-for", tl))
-        edits.append(Edit(lp["span"][1], lp["span"][1], " }", "X9:desugar-for", tl))
+        m_ = re.match(r"^(.*?)\s*\.\s*by_ref\(\)$", ex, re.S)
+        if m_:
+            # `for x in it.by_ref()` is `while let Some(x) = it.next()` (std: `impl Iterator for &mut I` forwards next)
+            hdr = f"while let Some({pat}) = {m_.group(1)}.next() "
+            edits.append(Edit(lp["span"][0], lp["body_start"], hdr, "X9:desugar-for-by_ref", tl))
+        else:
+            hdr = f"{{ let mut __it{k} = core::iter::IntoIterator::into_iter({ex}); while let Some({pat}) = __it{k}.next() "
+            edits.append(Edit(lp["span"][0], lp["body_start"], hdr, "X9:desugar-for", tl))
+            edits.append(Edit(lp["span"][1], lp["span"][1], " }", "X9:desugar-for", tl))
     elif kw == "loopbody":
         k = int(w[1].rstrip(":"))
         if k >= len(it["loops"]):
